@@ -361,6 +361,18 @@ fn subst(c: &Content, hid: usize, sub: Sub, offset: usize) -> String {
     }
 }
 
+/// piece sizes (cycled) for the `write_utf8_chunk` half of a streaming handler, derived from the content itself so that
+/// the Rust and the C driver cut identically
+pub fn utf8_piece_sizes(s: &str) -> &'static [usize] {
+    match crate::rng::fnv(s.as_bytes()) % 5 {
+        0 => &[usize::MAX],
+        1 => &[1],
+        2 => &[1, 2, 3],
+        3 => &[2, 0, 1],
+        _ => &[3, 1, 0, 0, 2],
+    }
+}
+
 fn streamer(s: String, html: bool) -> Box<dyn lol_html::html_content::StreamingHandler + Send + 'static> {
     Box::new(move |sink: &mut StreamingHandlerSink<'_>| -> HResult {
         let t = if html { ContentType::Html } else { ContentType::Text };
@@ -370,7 +382,18 @@ fn streamer(s: String, html: bool) -> Box<dyn lol_html::html_content::StreamingH
             mid += 1;
         }
         sink.write_str(&s[..mid], t);
-        sink.write_str(&s[mid..], t);
+        // second half: byte pieces (cut anywhere, also inside a character, with empty pieces) through write_utf8_chunk;
+        // for valid UTF-8 this must be indistinguishable from write_str of the whole string
+        let rest = s[mid..].as_bytes();
+        let mut at = 0;
+        let mut k = 0;
+        let sizes = utf8_piece_sizes(&s);
+        while at < rest.len() {
+            let n = sizes[k % sizes.len()].min(rest.len() - at);
+            k += 1;
+            sink.write_utf8_chunk(&rest[at..at + n], t)?;
+            at += n;
+        }
         Ok(())
     })
 }
